@@ -696,3 +696,120 @@ def rule_nc_name_equal(ctx):
                     ctx.violated("NCNAMEEQ", key, f.where(line), "`%s` decides a look-up by name without comparing the length with `%s->len`: the look-up is a prefix match" % (render(x)[:70], sbase))
     ctx.floor("NCNAMEEQ", 8, n, "(byte comparisons against counted names in the SD layer)")
     return n
+
+
+# ---------------------------------------------------------------------------------------------------------------------
+class _SlotFill(PathAnalysis):
+    def __init__(self, prog, base):
+        super().__init__(prog)
+        self.base = base
+        self.exits = []
+
+    def init_user(self, func):
+        return frozenset()
+
+    def on_stmt(self, func, bid, idx, stmt, env, user):
+        u = None
+        for x in walk(stmt["e"], True):
+            if x[0] == "asg" and x[1] == "=":
+                t = strip(x[2])
+                if kind(t) == "mem" and kind(strip(t[1])) == "idx" and render(strip(strip(t[1])[1])) == self.base:
+                    u = set(user) if u is None else u
+                    u.add(t[2])
+        return frozenset(u) if u is not None else user
+
+    def on_exit(self, func, bid, retval, env, user):
+        self.exits.append((classify_ret(retval, self.fails), user))
+
+
+def _slot_bases(f):
+    """array expressions A such that f stores at least three different fields of A[i]"""
+    per = {}
+    for _b, _i, _s, x in f.nodes(True):
+        if x[0] == "asg" and x[1] == "=":
+            t = strip(x[2])
+            if kind(t) == "mem" and kind(strip(t[1])) == "idx":
+                per.setdefault(render(strip(strip(t[1])[1])), set()).add(t[2])
+    return {b: fl for b, fl in per.items() if len(fl) >= 3}
+
+
+def rule_slot_filled_alike(ctx, files=("vsfld.c", "vio.c", "vgp.c", "vattr.c")):
+    """SLOTFILL (C07, C08): a table entry `A[i]` that a routine fills field by field (a field definition of a Vdata: name, type,
+    size, order) is filled completely on every non-failing path — also on the path that re-uses an existing entry (a
+    redefinition).  A field stored only on the 'new entry' path leaves a redefined entry with the new type and the old size."""
+    prog = ctx.prog
+    n = 0
+    for f in prog.lib_funcs():
+        if not f.rel.endswith(tuple(files)):
+            continue
+        for base, fields in sorted(_slot_bases(f).items()):
+            a = _SlotFill(prog, base)
+            a.fails = fail_values(f, prog)
+            try:
+                a.run(f)
+            except Exception:
+                continue
+            sets = [u for cls, u in a.exits if cls != "fail" and u]
+            if not sets:
+                continue
+            n += 1
+            key = "SLOTFILL:%s:%s" % (f.name, base[:30])
+            inter = frozenset.intersection(*sets)
+            union = frozenset.union(*sets)
+            if inter == union:
+                ctx.holds("SLOTFILL", key, f.where(), "every non-failing path that fills an entry of `%s` stores %s" % (base, ", ".join(sorted(union))), nontrivial=len(sets) > 1)
+            else:
+                ctx.violated("SLOTFILL", key, f.where(), "an entry of `%s` is filled field by field, but `%s` is stored on some non-failing paths only (others store just %s): "
+                             "an entry that is re-used keeps a stale value in that field" % (base, ", ".join(sorted(union - inter)), ", ".join(sorted(inter))))
+    ctx.floor("SLOTFILL", 2, n, "(routines that fill a table entry field by field)")
+    return n
+
+
+# ---------------------------------------------------------------------------------------------------------------------
+SNAPSHOT_FIELDS = {("vs_instance_struct", "nvertices"): ("vdata_desc", "nvertices")}
+
+
+def _snapshot_reads(exprs, rec, fld):
+    """occurrences of <rec>.<fld> that are read (anything but the target of a plain assignment)"""
+    out = []
+    for e in exprs:
+        targets = set()
+        for x in walk(e, True):
+            if x[0] == "asg" and x[1] == "=":
+                t = strip(x[2])
+                if kind(t) == "mem" and (t[3], t[2]) == (rec, fld):
+                    targets.add(id(t))
+        for x in walk(e, True):
+            if x[0] == "mem" and (x[3], x[2]) == (rec, fld) and id(x) not in targets:
+                out.append(x)
+    return out
+
+
+def rule_snapshot_not_consulted(ctx):
+    """SNAPSHOT (C07): the per-file instance node of a Vdata carries `nvertices`, the record count *when the node was set up*; the
+    count that VSwrite keeps up to date is the one in the Vdata record itself.  No decision may read the snapshot: a guard such as
+    'records have been written, the interlace can no longer change' that looks at it stays open for a Vdata that was empty when
+    attached.  (Expected count 0; the matcher is run on a built-in positive example on every check.)"""
+    prog = ctx.prog
+    n = 0
+    for (rec, fld), (live_rec, live_fld) in SNAPSHOT_FIELDS.items():
+        ex = ["bin", ">", ["mem", ["var", "w", "l", "vsinstance_t *"], fld, rec, "int32", True], ["int", 0], "int"]
+        if len(_snapshot_reads([ex], rec, fld)) != 1:
+            ctx.unrecognised("SNAPSHOT", "SNAPSHOT:selftest", "-", "the matcher no longer recognises its built-in positive example")
+        stores = 0
+        for f in prog.lib_funcs():
+            exprs = [s["e"] for _b, _i, s in f.stmts()]
+            stores += sum(1 for e in exprs for x in walk(e, True) if x[0] == "asg" and kind(strip(x[2])) == "mem" and (strip(x[2])[3], strip(x[2])[2]) == (rec, fld))
+            reads = _snapshot_reads(exprs, rec, fld)
+            # terminator conditions are separate from the statements
+            for b in f.blocks.values():
+                t = b.get("term")
+                if t and t.get("cond") is not None:
+                    reads += _snapshot_reads([t["cond"]], rec, fld)
+            if reads:
+                ctx.violated("SNAPSHOT", "SNAPSHOT:%s:%s.%s" % (f.name, rec, fld), f.where(), "%s reads `%s.%s`, the count taken when the instance node was set up, where the live count is `%s.%s`: "
+                             "the test does not see records written since the Vdata was attached" % (f.name, rec, fld, live_rec, live_fld))
+        n += stores
+        ctx.holds("SNAPSHOT", "SNAPSHOT:%s.%s" % (rec, fld), "-", "stored at %d site(s), never read" % stores, nontrivial=False)
+    ctx.floor("SNAPSHOT", 1, n, "(stores of the snapshot fields)")
+    return n
